@@ -91,10 +91,14 @@ def collect_programs(ctx):
     # the shared typed generator (well-typed compute programs: expressions of every core type, helper
     # functions, pointers, structs, matrices, workgroup variables, atomics on request)
     nt = scale(300, 3000)
+    rev_every = 2
     for i in range(nt):
         opts = {"atomics": i % 3 == 0}
         for attempt in range(4):
             _ast, src = wgslgen.generate(rng.fork("typed%d.%d" % (i, attempt)), opts)
+            if i % rev_every == 1:
+                # entry point first, helpers and module-scope declarations after their uses (WGSL: order-free)
+                src = wgslgen.render(_ast, reverse=True)
             # a generated name that coincides with a predeclared type name (`var i32: i32`) is legal WGSL
             # but not something naga documents; such programs are not used as evidence
             if not TYPE_NAME_DECL.search(src):
